@@ -605,7 +605,7 @@ func main() {
 	r := evid.New(P, "fault_enumeration")
 	r.Rule("(a) version tables of 1..12 distinct numbers from 1..16 in random DECLARED order, some with nil migrations, table handed out as the same slice or as a fresh copy per call; stored version below / at / above the latest; for each table a failure is injected at EVERY position of the list of migrations that must run (plus the no-failure run); a recording migration.Manager over a real bdb namespace, driven inside one walletdb.Update as the wallet does; in a third of the tables each an up-to-date service is listed before it and/or a service with one pending migration after it in the SAME Upgrade call (the up-to-date one must stay untouched, the later one must be upgraded iff the table under test did not fail). Oracle: invoked numbers = sorted pending non-nil ones up to the failing one, each once; error iff failure or stored > latest (ErrReversion); on error the namespace dump equals the one before; on success the recorded version is the latest and SetVersion was called exactly once. (b) a real wallet database whose wtxmgr version is wound back to 1 (and waddrmgr to 7) is opened through wallet.OpenWithRetry with the k-th database write failing, for every k: each failed attempt must return an error and leave both namespaces byte-identical; the fault-free attempt must end at the latest versions with a usable store. (c) the real managers' own tables (wtxmgr, waddrmgr) are driven through migration.Upgrade with an invocation-counting wrapper, repeatedly in one process: a failing attempt, the retry, an up-to-date store; each pending migration must be invoked exactly once per attempt, ascending. (d) wtxmgr.Open and waddrmgr.Open called directly on namespaces recorded 1..4 versions above the latest understood must refuse them and leave them untouched. Non-trivial = table with at least one migration to run; distinct = distinct (table, stored, failure position).")
 	r.Trusted("walletdb/bdb transaction rollback (C11)")
-	dir, _ := os.MkdirTemp("", "c19")
+	dir := r.TempDir("c19")
 	defer os.RemoveAll(dir)
 	r.Parallel("tables", r.N(8, 1200), evid.Workers(), func(i int, cs int64) {
 		rg := rand.New(rand.NewSource(cs))
